@@ -139,3 +139,14 @@ Proof. vm_compute. split; reflexivity. Qed.
 (* hypotheses of ref_store_snapshot are satisfiable: the array of st_two *)
 Example ex_ref_store_snapshot_hyp : exists c0, zval_pos (hp st_two) 5 (KI 1) = Some 1%nat /\ nth_error (spine (hp st_two) 5) 1 = Some c0.
 Proof. eexists. vm_compute. split; reflexivity. Qed.
+
+(* hypotheses of clone_then_third_party_write hold for the nested array [[5,6],[7]] and its inner array:
+   a = the outer array of $a, X = the array stored at $a[0] *)
+Definition st_nest : state := run [SLit "a" (LList [LList [LInt 5; LInt 6]; LList [LInt 7]])] state0.
+Example ex_third_party_hyp :
+  match var_val st_nest "a", container_get (hp st_nest) (var_val st_nest "a") (KI 0) with
+  | VArr a, VArr X => Nat.ltb a (next (hp st_nest)) = true /\ Nat.ltb X (next (hp st_nest)) = true /\ X <> a /\
+                      forallb (fun c => negb (cref (cell_at (hp st_nest) c)) && Nat.ltb c (next (hp st_nest))) (spine (hp st_nest) X) = true
+  | _, _ => False
+  end.
+Proof. vm_compute. repeat split; try reflexivity. discriminate. Qed.
